@@ -6,7 +6,7 @@ GO = dict(module="extras", pkg="transport/udphop", pkgname="udphop",
 PARAMS_NAME = "ParamsC19"
 HEADER = ("From Hy Require Import lib.Harness model.C19_PortUnion model.C19_Hop corr.C19_Corr.\n"
           "From Coq Require Import ZArith.\nLocal Open Scope N_scope.\n")
-RULE = ("seeded generator: (pu) grammar-directed port expressions (singles, ranges, reversed, equal, adjacent, overlapping, nested, "
+RULE = ("seeded generator: (pu) every string over a 4-letter alphabet up to length 4 (6 letters, length 5 in the thorough tier), grammar-directed port expressions (singles, ranges, reversed, equal, adjacent, overlapping, nested, "
         "0 and 65535, leading zeros, 65536+, long digit strings) and byte-level mutations of them (junk, signs, spaces, doubled/"
         "leading/trailing separators, wildcard look-alikes), Contains probed at every boundary +-1; (norm) Normalize on arbitrary "
         "range lists incl. reversed ranges; (ival) hop-interval configurations around 0, 5 s, min>max, one-sided, negative, int64 "
@@ -235,9 +235,21 @@ def gen_hop_one(rng, big=False, full=False):
             "ops": ops, "end": end, "drain": full or rng.random() < 0.6, "workers": workers + 3}
 
 
+def gen_pu_exhaustive(alphabet, maxlen):
+    import itertools
+    out = []
+    for n in range(maxlen + 1):
+        for t in itertools.product(alphabet, repeat=n):
+            s = "".join(t)
+            out.append({"k": "pu", "s": s.encode().hex(), "probe": [0, 1, 2, 3, 6, 11, 12, 13, 65535]})
+    return out
+
+
 def gen(rng, tier):
-    scale = 1 if tier == "quick" else 15
+    scale = 1 if tier == "quick" else 10
     cases = []
+    # every string over a tiny alphabet (all separator / digit arrangements)
+    cases += gen_pu_exhaustive("1,-3", 4) if tier == "quick" else gen_pu_exhaustive("01,-6 ", 5)
     cases += gen_pu(rng, 900 * scale)
     cases += gen_norm(rng, 200 * scale)
     cases += gen_ival(rng, 40 * scale)
@@ -344,6 +356,8 @@ def ev_terms(c, o):
 
 def to_coq(c, o):
     k = c["k"]
+    if o.get("skipped"):
+        return None
     if o.get("panic"):
         # the models never panic on these inputs: force a mismatch
         return "CIval 0%Z 0%Z true 0%Z 0%Z []"
@@ -432,9 +446,63 @@ def search(ctx, disagreeing):
     return found
 
 
+def _crashsafe(orig, force_race):
+    """run_go_cases, but (1) under the race detector in the thorough tier and (2) when the test process dies (a panic in one
+    of the conn's own goroutines cannot be recovered by the harness) the case named by the harness's marker file is reported
+    as a failing input of its own and the remaining cases are run again without it."""
+    import os
+    import re
+
+    def f(ctx, gospec, cases, tag="main", timeout=900, race=False):
+        race = race or force_race
+        cur = ctx.path("out_%s.jsonl.cur" % tag)
+        remaining = list(range(len(cases)))
+        crashed = {}
+        res = None
+        for attempt in range(4):
+            if os.path.exists(cur):
+                os.remove(cur)
+            sub = [cases[i] for i in remaining]
+            res = orig(ctx, gospec, sub, tag=tag, timeout=3000 if race else timeout, race=race)
+            if res[0] or not os.path.exists(cur):
+                break
+            j = int(open(cur).read().strip() or "-1")
+            if not (0 <= j < len(remaining)):
+                break
+            m = re.search(r"^(panic: .*|fatal error: .*)$", res[3], re.M)
+            crashed[remaining[j]] = (m.group(1) if m else "test process died") + " | " + res[3][-600:]
+            del remaining[j]
+        skipped = []
+        if crashed and not res[0]:
+            # still crashing: run the remaining cases without any hop history (their outputs are marked skipped)
+            skipped = [i for i in remaining if cases[i]["k"] == "hop"]
+            remaining = [i for i in remaining if cases[i]["k"] != "hop"]
+            if os.path.exists(cur):
+                os.remove(cur)
+            res = orig(ctx, gospec, [cases[i] for i in remaining], tag=tag, timeout=timeout, race=race)
+        ok, outs, params, log = res
+        if not crashed or not ok:
+            return res
+        full = [None] * len(cases)
+        for i in skipped:
+            full[i] = {"i": i, "k": "hop", "skipped": True, "ok": True, "why": "", "log": [], "census": []}
+        for i, o in zip(remaining, outs):
+            full[i] = o
+        for i, msg in crashed.items():
+            full[i] = {"i": i, "k": cases[i]["k"], "panic": True, "ok": False, "log": [], "census": [],
+                       "why": "the process crashed while running this history (panic in one of the conn's own goroutines)", "crash": msg}
+        return True, full, params, log
+    return f
+
+
 def run(ctx):
     import sys
-    return common.run_case_check(ctx, sys.modules[__name__])
+    orig = common.run_go_cases
+    common.run_go_cases = _crashsafe(orig, ctx.tier == "thorough")
+    try:
+        return common.run_case_check(ctx, sys.modules[__name__])
+    finally:
+        common.run_go_cases = orig
 
 
 def replay(ctx, path):
